@@ -16,6 +16,7 @@ use crate::util::{ms, within, Waited};
 use crate::Args;
 use refcodec::json::J;
 use refcodec::report::Report;
+use refcodec::rng::Rng;
 use std::net::{Ipv6Addr, SocketAddr, SocketAddrV6, UdpSocket};
 use std::sync::{Arc, Mutex};
 use std::time::{Duration, Instant};
@@ -395,6 +396,152 @@ fn debug_field(dbg: &str, field: &str) -> Option<String> {
     Some(out.trim().to_string())
 }
 
+/// Builder call histories: the effective transport configuration is the one the *last* call per
+/// setting asked for, whatever the builder held before (defaults or a custom transport with
+/// presets), and every refused call leaves no trace.
+fn transport_builder_histories(rep: &mut Report, seed: u64, n: u64) {
+    let mut rng = Rng::derive(seed, 0xC20_B1);
+    #[derive(Clone, Debug)]
+    enum Call {
+        Idle(Option<Duration>),
+        KeepAlive(Option<Duration>),
+        Migration(bool),
+    }
+    let preset = || {
+        let mut t = quinn::TransportConfig::default();
+        t.max_idle_timeout(Some(quinn::IdleTimeout::try_from(Duration::from_secs(9)).unwrap()));
+        t.keep_alive_interval(Some(Duration::from_secs(7)));
+        t
+    };
+    // fresh builders give the reference for untouched settings (measured, not assumed)
+    let fresh = |server: bool, custom: bool| -> String {
+        match (server, custom) {
+            (true, false) => format!("{:?}", ServerConfig::builder().with_bind_default(0).with_identity(ends::identity()).build().quic_config()),
+            (true, true) => format!("{:?}", ServerConfig::builder().with_bind_default(0).with_custom_transport(ends::identity(), preset()).build().quic_config()),
+            (false, false) => format!("{:?}", ClientConfig::builder().with_bind_default().with_no_cert_validation().build().quic_config()),
+            (false, true) => format!("{:?}", ClientConfig::builder().with_bind_default().with_custom_transport(preset()).build().quic_config()),
+        }
+    };
+    for hi in 0..n {
+        let server = hi % 2 == 0;
+        let custom = (hi / 2) % 2 == 0;
+        let base = fresh(server, custom);
+        let mut want_idle = debug_field(&base, "max_idle_timeout").unwrap_or_default();
+        let mut want_ka = debug_field(&base, "keep_alive_interval").unwrap_or_default();
+        let mut want_mig = debug_field(&base, "migration").unwrap_or_default();
+        if custom && (want_idle != "Some(9000)" || want_ka != "Some(7s)") {
+            return rep.inconclusive(format!("custom transport presets not visible in Debug output: idle {want_idle}, keep-alive {want_ka}"));
+        }
+        let calls: Vec<Call> = (0..rng.usize(1, 6))
+            .map(|_| match rng.below(3) {
+                0 => Call::Idle(match rng.below(6) {
+                    0 => None,
+                    1 => Some(Duration::from_millis(rng.range(1, 1 << 40))),
+                    2 => Some(Duration::from_millis((1u64 << 62) - 1 - rng.below(3))),
+                    // unrepresentable: 2^62 ms and beyond, including values whose low 64 bits look small
+                    3 => Some(Duration::from_millis((1u64 << 62) + rng.below(1 << 61))),
+                    4 => {
+                        let ms = (1u128 << 64) * (1 + rng.below(1000) as u128) + rng.below(1 << 40) as u128;
+                        Some(Duration::new((ms / 1000) as u64, (ms % 1000) as u32 * 1_000_000))
+                    }
+                    _ => Some(Duration::new(u64::MAX - rng.below(1000), rng.below(1_000_000_000) as u32)),
+                }),
+                1 => Call::KeepAlive(if rng.chance(1, 3) { None } else { Some(Duration::from_millis(rng.range(1, 100_000))) }),
+                _ => Call::Migration(rng.chance(1, 2)),
+            })
+            .collect();
+        let mut refusals = 0;
+        let dbg = if server {
+            let mut b = if custom { ServerConfig::builder().with_bind_default(0).with_custom_transport(ends::identity(), preset()) } else { ServerConfig::builder().with_bind_default(0).with_identity(ends::identity()) };
+            for c in &calls {
+                match c {
+                    Call::Idle(d) => {
+                        let representable = d.map_or(true, |x| x.as_millis() < (1u128 << 62));
+                        // a refused call consumes the builder: rebuild it the same way up to here
+                        match b.max_idle_timeout(*d) {
+                            Ok(nb) => {
+                                b = nb;
+                                if !representable {
+                                    rep.violation("C20|idle-timeout|unrepresentable-accepted", format!("server max_idle_timeout({d:?}) accepted"), J::s(format!("{calls:?}")));
+                                }
+                                want_idle = d.map_or("None".to_string(), |x| format!("Some({})", x.as_millis()));
+                            }
+                            Err(_) => {
+                                if representable {
+                                    rep.violation("C20|idle-timeout|representable-refused", format!("server max_idle_timeout({d:?}) refused"), J::s(format!("{calls:?}")));
+                                }
+                                refusals += 1;
+                                // continue on a new builder carrying the expectations so far
+                                b = if custom { ServerConfig::builder().with_bind_default(0).with_custom_transport(ends::identity(), preset()) } else { ServerConfig::builder().with_bind_default(0).with_identity(ends::identity()) };
+                                want_idle = debug_field(&base, "max_idle_timeout").unwrap_or_default();
+                                want_ka = debug_field(&base, "keep_alive_interval").unwrap_or_default();
+                                want_mig = debug_field(&base, "migration").unwrap_or_default();
+                            }
+                        }
+                    }
+                    Call::KeepAlive(k) => {
+                        b = b.keep_alive_interval(*k);
+                        want_ka = format!("{k:?}");
+                    }
+                    Call::Migration(m) => {
+                        b = b.allow_migration(*m);
+                        want_mig = format!("{m}");
+                    }
+                }
+            }
+            format!("{:?}", b.build().quic_config())
+        } else {
+            let mut b = if custom { ClientConfig::builder().with_bind_default().with_custom_transport(preset()) } else { ClientConfig::builder().with_bind_default().with_no_cert_validation() };
+            for c in &calls {
+                match c {
+                    Call::Idle(d) => {
+                        let representable = d.map_or(true, |x| x.as_millis() < (1u128 << 62));
+                        match b.max_idle_timeout(*d) {
+                            Ok(nb) => {
+                                b = nb;
+                                if !representable {
+                                    rep.violation("C20|idle-timeout|unrepresentable-accepted", format!("client max_idle_timeout({d:?}) accepted"), J::s(format!("{calls:?}")));
+                                }
+                                want_idle = d.map_or("None".to_string(), |x| format!("Some({})", x.as_millis()));
+                            }
+                            Err(_) => {
+                                if representable {
+                                    rep.violation("C20|idle-timeout|representable-refused", format!("client max_idle_timeout({d:?}) refused"), J::s(format!("{calls:?}")));
+                                }
+                                refusals += 1;
+                                b = if custom { ClientConfig::builder().with_bind_default().with_custom_transport(preset()) } else { ClientConfig::builder().with_bind_default().with_no_cert_validation() };
+                                want_idle = debug_field(&base, "max_idle_timeout").unwrap_or_default();
+                                want_ka = debug_field(&base, "keep_alive_interval").unwrap_or_default();
+                            }
+                        }
+                    }
+                    Call::KeepAlive(k) => {
+                        b = b.keep_alive_interval(*k);
+                        want_ka = format!("{k:?}");
+                    }
+                    Call::Migration(_) => {}
+                }
+            }
+            format!("{:?}", b.build().quic_config())
+        };
+        rep.eval(format!("builder-history|{}|{}|calls={}|refusals={}", if server { "server" } else { "client" }, if custom { "custom-transport" } else { "default-transport" }, calls.len().min(3), refusals.min(2)));
+        let got_idle = debug_field(&dbg, "max_idle_timeout").unwrap_or_default();
+        let got_ka = debug_field(&dbg, "keep_alive_interval").unwrap_or_default();
+        if got_idle != want_idle {
+            rep.violation("C20|idle-timeout|effective-value", format!("after {calls:?} the effective max_idle_timeout is {got_idle} (expected {want_idle})"), J::s(format!("{calls:?}")));
+        }
+        if got_ka != want_ka {
+            rep.violation("C20|keep-alive|effective-value", format!("after {calls:?} the effective keep_alive_interval is {got_ka} (expected {want_ka})"), J::s(format!("{calls:?}")));
+        }
+        if server {
+            let got_m = debug_field(&dbg, "migration").unwrap_or_default();
+            if got_m != want_mig {
+                rep.violation("C20|migration|effective-value", format!("after {calls:?} migration is {got_m} (expected {want_mig})"), J::s(format!("{calls:?}")));
+            }
+        }
+    }
+}
+
 fn transport_config_cases(rep: &mut Report) {
     let max_ok = Duration::from_millis((1u64 << 62) - 1);
     let cases: Vec<(Option<Duration>, bool, &str)> = vec![
@@ -407,6 +554,9 @@ fn transport_config_cases(rep: &mut Report) {
         (Some(Duration::MAX), false, "Duration::MAX"),
         (Some(Duration::from_secs(u64::MAX / 1000)), false, "u64::MAX/1000 s"),
         (Some(Duration::from_micros(1500)), true, "1.5ms"),
+        (Some(Duration::new(18_446_744_073_709_551, 616_000_000)), false, "2^64ms"),
+        (Some(Duration::new(18_446_744_073_709_553, 116_000_000)), false, "2^64+1500ms"),
+        (Some(Duration::from_millis(u64::MAX)), false, "u64::MAX ms"),
     ];
     for (d, ok, name) in cases {
         for server in [true, false] {
@@ -605,6 +755,7 @@ pub fn run(args: &Args) -> Report {
     let mut rep = Report::new();
     bind_matrix(&mut rep);
     transport_config_cases(&mut rep);
+    transport_builder_histories(&mut rep, args.seed, if args.thorough { 4000 } else { 400 });
     let rt = crate::runtime(true, 4);
     rt.block_on(async {
         dual_stack_behaviour(&mut rep).await;
